@@ -43,20 +43,21 @@ static inline void *g4_calloc(size_t n, size_t size)
 #define CALLOC_FRAME g_calloc_null, g_calloc_n, g_calloc_size
 
 /* ---- uthash insertion: ghost log; an empty table gets its first element ---- */
-unsigned g_add_n; void *g_add_headp, *g_add_item, *g_add_key;
+unsigned g_add_n; void *g_add_headp, *g_add_item, *g_add_key; unsigned g_add_saw_open;
+unsigned g_open_n;
 static inline void g4_hash_add(struct pvt **headp, struct pvt *add, void *key)
 {
-	g_add_n++; g_add_headp = headp; g_add_item = add; g_add_key = key;
+	g_add_n++; g_add_headp = headp; g_add_item = add; g_add_key = key; g_add_saw_open = g_open_n;
 	if (*headp == NULL) *headp = add;
 }
 #undef HASH_ADD_STR
 #define HASH_ADD_STR(head, field, add) g4_hash_add(&(head), (add), (add)->field)
-#define ADD_FRAME g_add_n, g_add_headp, g_add_item, g_add_key
+#define ADD_FRAME g_add_n, g_add_headp, g_add_item, g_add_key, g_add_saw_open
 
 /* ---- pv/pvt.c, pv/cfg.c: logging stubs, any result ---- */
 int g_k;                                  /* observed ordinal: arbitrary */
 int64_t g_time;                           /* the time recorder_advance was given */
-unsigned g_open_n; void *g_open_pvt; long g_open_nrows; const void *g_open_dir, *g_open_name; int g_open_ret, g_open_zeroed;
+void *g_open_pvt; long g_open_nrows; const void *g_open_dir, *g_open_name; int g_open_ret, g_open_zeroed;
 int pvt_open(struct pvt *pvt, long nrows, const char *dir, const char *name)
 {
 	g_open_n++; g_open_pvt = pvt; g_open_nrows = nrows; g_open_dir = dir; g_open_name = name;
@@ -149,7 +150,8 @@ __CPROVER_ensures(g_open_n == 0 || (g_open_pvt != NULL && g_open_nrows == nrows 
 /* added exactly when it could be opened */
 __CPROVER_ensures((__CPROVER_return_value != NULL) == (g_found == NULL && g_open_n == 1 && g_open_ret == 0))
 __CPROVER_ensures(__CPROVER_return_value == NULL || (__CPROVER_return_value == g_open_pvt && g_add_n == 1 &&
-	g_add_headp == &rec->pvt && g_add_item == __CPROVER_return_value && g_add_key == __CPROVER_return_value->name))
+	g_add_headp == &rec->pvt && g_add_item == __CPROVER_return_value && g_add_key == __CPROVER_return_value->name &&
+	g_add_saw_open == 1 /* hashed under its name: only pvt_open stores the name */))
 __CPROVER_ensures(__CPROVER_return_value != NULL || (g_add_n == 0 && rec->pvt == g_head0 && g_err > __CPROVER_old(g_err)))
 ;
 void h_recorder_add_pvt(void)
